@@ -59,9 +59,9 @@ hypothetical rule (repair A `copyPerFit`, repaired `nu`), kept because the count
             in Model/LifecycleSrc.lean), src_predict_pure_flags (`predictPureSrc c` for all 7 classes);
             the `predict` step of EVERY `…src` machine runs through that flag (`guardPredict`, src_*_guard), so
             src_predict_does_not_alter_state (every history) and every src_*_refines_spec / src_*_history_free DEPEND on the lifted
-            lists (guard_off_breaks_spec: with the flag off they are false).  F5g (known finding, visible):
-            src_cr_transform_resets_sklearn_attrs — CorrelationRemover.transform lets sklearn's validate_data(reset=True) rewrite
-            n_features_in_ / feature_names_in_.
+            lists (guard_off_breaks_spec: with the flag off they are false).  F5g (repaired): src_cr_transform_pure — no
+            prediction entry point calls validate_data(self, ..) with reset=True (`predictValidateResets` is part of the purity flag);
+            src_cr_transform_resets_sklearn_attrs is the counter-witness for the pre-repair rule (`transform` in that list).
             *_predict_pure (every state, every rule).  The model's predict result does not depend on the seed at all,
             so "same seed repeats" is the second conjunct of *_predict_pure; the numbers are compared by the harness.
        STILL MODELLED, NOT LIFTED: the `.retSelf` result of the EG / TO / CR steps (fitReturns is lifted and proved `["self"]`,
@@ -537,15 +537,24 @@ theorem src_helper_mode_flag_scratch :
     helperPredictForwardModes .TF = [("predictor_model", "eval")] ∧
     (helperTrainStepForwardModes .PT).contains ("predictor_model", "train") = true := by decide +kernel
 
-/-- F5g (KNOWN finding, kept visible): `CorrelationRemover.transform` calls `validate_data(self, X)` with sklearn's default
-    `reset=True` (_correlation_remover.py:133), so a TRANSFORM rewrites the estimator's `n_features_in_` /
-    `feature_names_in_` from the array it is given (replayed by the harness: fit on 3 columns, `transform` of 4 columns raises
-    ValueError and leaves `n_features_in_ = 4`).  The adversarial estimators pass `reset=False`; no other class hands itself to
-    `validate_data` while predicting.  No fairlearn code reads the two attributes (CorrelationRemover checks its own
-    `_n_features_in_`), which is why the flag below — about the state a later prediction or fit can see — stays on. -/
+/-- F5g REPAIRED (current source): `CorrelationRemover.transform` calls `validate_data(self, X, reset=False)`, so no prediction
+    entry point of any class lets sklearn rewrite `n_features_in_` / `feature_names_in_`; CorrelationRemover's purity flag is
+    on WITHOUT exception, its source-derived machine is the raw one, and a `transform` leaves the modelled state alone. -/
+theorem src_cr_transform_pure :
+    (∀ c ∈ estimators, predictValidateResets c = []) ∧ predictPureSrc .CR = true ∧ CRsrc = CRraw := by
+  refine ⟨by decide +kernel, by decide +kernel, ?_⟩
+  exact guardPredict_of_flag (by decide +kernel) _ _
+
+/-- F5g, the PRE-REPAIR rule (counter-witness, like the other historical rules): with `validate_data(self, X)` in `transform`
+    (sklearn's default `reset=True`; the lifter then emits `predictValidateResets .CR = ["transform"]`) the purity flag of
+    CorrelationRemover is OFF, and the machine run through that flag departs from the specification after one `transform`
+    (replayed on fairlearn before the repair: fit on 3 columns, `transform` of 4 columns raised ValueError and left
+    `n_features_in_ = 4`; a DataFrame with a renamed column replaced `feature_names_in_`).  No fairlearn code reads the two
+    attributes, which is why only the attribute comparison of the harness could see it. -/
 theorem src_cr_transform_resets_sklearn_attrs :
-    predictValidateResets .CR = ["transform"] ∧
-    (∀ c ∈ [EstCls.TO, .EG, .GS, .ADV, .ADVC, .ADVR], predictValidateResets c = []) ∧
+    predictPureWith ["transform"] .CR = false ∧
+    (guardPredict (predictPureWith ["transform"] .CR) crTaint CRraw).view crCls [.fit D1, .predict 0]
+      ≠ Spec.view specCls [.fit D1, .predict 0] ∧
     (predictReads .CR).contains "n_features_in_" = false ∧ (predictReads .CR).contains "feature_names_in_" = false ∧
     (fitHistoryReads .CR).all (fun x => !x.startsWith "n_features_in_ " && !x.startsWith "feature_names_in_ ") = true := by
   decide +kernel
